@@ -96,6 +96,6 @@ pub open spec fn ub_post(input: Seq<u8>, r: Seq<u8>) -> bool {
 //@   replace "    let prefix = namespace.to_vec();" => "    let ghost vx_base = base_iterator.remaining();\n    let prefix = namespace.to_vec();"
 //@   before? "RecordIter::boxed(mapped)" proof { let bhi = optvec_view(end); let ob = recs_view(vx_base); let oo = recs_view(mapped.rem()); assert(trimmed(ob, oo, namespace@.len() as int)) by { assert forall|i: int| 0 <= i < ob.len() implies (#[trigger] oo[i]).0 == ob[i].0.subrange(namespace@.len() as int, ob[i].0.len() as int) && oo[i].1 == ob[i].1 by { let x = mapped.rem()[i]; let y = vx_base[i]; assert(oo[i] == (x.0@, x.1@)); assert(ob[i] == (y.0@, y.1@)); assert(prefix@ == namespace@); assert(x.0@ == y.0@.subrange(prefix@.len() as int, y.0@.len() as int) && x.1 == y.1); } } lemma_prefixed_range(ob, oo, storage.view(), namespace@, vx_lo, vx_hi, start@, bhi, order); }
 //@   replace "Box::new(mapped)" => "RecordIter::boxed(mapped)"
-//@   replace "base_iterator.map(move |(k, v)| (trim(&prefix, &k), v))" => "iter_map(base_iterator, move |kv: Record| -> (o: Record) requires prefix@.len() <= kv.0@.len() ensures o.0@ == kv.0@.subrange(prefix@.len() as int, kv.0@.len() as int) && o.1 == kv.1 { let (k, v) = kv; (trim(&prefix, &k), v) })"
+//@   replace_re "base_iterator\\.map\\(move \\|(?P<P>\\w+)\\| \\{ let \\(k, v\\) = (?P=P); \\(trim\\(&prefix, &k\\), v\\) \\}\\)" => "iter_map(base_iterator, move |kv: Record| -> (o: Record) requires prefix@.len() <= kv.0@.len() ensures o.0@ == kv.0@.subrange(prefix@.len() as int, kv.0@.len() as int) && o.1 == kv.1 { let (k, v) = kv; (trim(&prefix, &k), v) })"
 //@ end
 
